@@ -277,6 +277,45 @@ def _units_facts(J, w):
     return unamb, float(np.linalg.norm(bd) / np.linalg.norm(w))
 
 
+def _config_float32(res, J, key, w):
+    """ConFIG in float32 at global scales 1 and 1e6, preference vector as given and shrunk by 1e-3 (added after a seeded change -
+    a zero-direction guard relative to the norm of the MATRIX instead of the weights - was missed by the float64-only family)."""
+    import torch
+    from torchjd import aggregation as T
+
+    m = J.shape[0]
+    c1 = tuple(float(i + 1) for i in range(m))
+    c2 = c1[::-1]
+    a, b = 0.5, 2.0
+    c0 = tuple(a * x + b * y for x, y in zip(c1, c2))
+    for g in (1.0, 1e6):
+        for shrink in (1.0, 1e-3):
+            pt = torch.tensor(np.asarray(w, dtype=np.float64) * shrink, dtype=torch.float32)
+            xs = []
+            for c in (c0, c1, c2):
+                Jt = torch.tensor(np.array(c)[:, None] * J * g, dtype=torch.float32)
+                try:
+                    xs.append(T.ConFIG(pref_vector=pt)(Jt).double().numpy())
+                except Exception as e:
+                    res["viol"].append(dict(sig=f"exception:ConFIG:float32:{type(e).__name__}", msg=f"{key} J={J.tolist()} g={g}: {e!r}"[:300]))
+                    xs = None
+                    break
+                res["execs"] += 1
+            if xs is None:
+                continue
+            S = max(A.sigma_max(np.array(c)[:, None] * J * g) for c in (c0, c1, c2))
+            err = float(np.abs(xs[0] - a * xs[1] - b * xs[2]).max())
+            _, q = _units_facts(J, np.asarray(w, dtype=np.float64))
+            tol = 2e-4 * S / min(1.0, q)
+            okey = "exact:ConFIG:float32"
+            res["maxima"][okey] = max(res["maxima"].get(okey, 0.0), err / tol)
+            res["counters"]["evaluations"] += 1
+            if err > tol:
+                res["viol"].append(dict(sig="nonlinear:ConFIG:float32", cls=f"nonlinear:ConFIG:float32:g={g:g}:shrink={shrink:g}",
+                                        msg=f"{key} J={J.tolist()} global scale {g:g} pref x{shrink:g} float32: A(c0)={xs[0].tolist()} "
+                                            f"a*A(c1)+b*A(c2)={(a * xs[1] + b * xs[2]).tolist()} err/tol={err / tol:.3g}"[:600]))
+
+
 def _run_exact(case, res):
     import torch
     from torchjd import aggregation as T
@@ -308,6 +347,8 @@ def _run_exact(case, res):
             x1 = rn.run(key, build, [], tuple([1.0] * m))
             if not isinstance(x1, Exception):
                 res["outcomes"].add(digest([key, np.round(x1, 6).tolist()]))
+            if name == "ConFIG":
+                _config_float32(res, J, key, w)
         res["execs"] += rn.execs
 
 
@@ -413,7 +454,10 @@ def _run_upgrad(case, res):
 
             for reg in REGS:
                 key = f"UPGrad[p{pk},reg={reg:g}]"
-                build = lambda pt=pt, reg=reg: T.UPGrad(pref_vector=pt, norm_eps=1e-30, reg_eps=reg)
+                # norm_eps never matters here (sigma_max(diag(c) J) >= max c >= 1e-3): alternate a tiny value and the default, so
+                # that a mix-up of the two eps parameters anywhere below the constructor changes the regularisation actually applied
+                ne = 1e-4 if reg in (1e-8, 1e-12) else 1e-30
+                build = lambda pt=pt, reg=reg, ne=ne: T.UPGrad(pref_vector=pt, norm_eps=ne, reg_eps=reg)
                 for (c1, c2, a, b) in trs:
                     c0 = _c0(c1, c2, a, b)
                     ws = [w0(c) for c in (c0, c1, c2)]
